@@ -277,3 +277,59 @@ def slot_order(g):
     if uniform:
         per_kind = {k: [(sn, i) for i, (sn, _) in enumerate(sorted(v, key=lambda x: x[1]))] for k, v in per_kind.items()}
     return per_kind, uniform, len(gens) - 1
+
+
+def oracle_replay(it, tr, flat, calls, pre, goal, g_ph, ph, grid=(-8, 8)):
+    """Replay a counterexample of a harness that uses oracle callbacks: the real function is run on the model's inputs with every
+    oracle callback returning the model's value for it; the goal (stated over output placeholders) is then evaluated on the real
+    outputs under the model.  True iff the goal is false there (eager and jit)."""
+    import jax
+    from vlib import fixtures, smt
+
+    try:
+        rv = [x for sa in flat if sa.kind == "f" for x in sa.flat() if jx.isz(x)]
+        m, den = smt.nice_model(list(pre) + [z3.Not(goal)], rv, lo=grid[0], hi=grid[1], timeout_s=20)
+        if m is None:
+            return None
+        args = model_inputs(m, tr, flat)
+        fixtures.ORACLE_RETURNS.clear()
+        for c in calls.calls:
+            o = c["outs"][0]
+            fixtures.ORACLE_RETURNS[c["tag"]] = jx.model_array(m, o, np.bool_ if o.kind == "b" else np.float32 if o.kind == "f" else np.int32)
+        reproduced = False
+        it2 = jx.Interp()
+        pl = jax.tree_util.tree_leaves(ph, is_leaf=lambda x: isinstance(x, jx.SA))
+        for wrap in (lambda f: f, jax.jit):
+            real = wrap(tr.fn)(*args)
+            rl = jax.tree_util.tree_leaves(real)
+            pairs = []
+            for p_, r_ in zip(pl, rl):
+                c_ = it2.from_concrete(np.asarray(r_), p_.dtype)
+                pairs += [(a, _zval(it.alg, b, p_.kind)) for a, b in zip(p_.flat(), c_.flat())]
+            val = m.eval(z3.substitute(g_ph, *pairs), model_completion=True)
+            if z3.is_false(val):
+                reproduced = True
+        fixtures.ORACLE_RETURNS.clear()
+        return reproduced
+    except BaseException:  # noqa
+        fixtures.ORACLE_RETURNS.clear()
+        return None
+
+
+def decide_oracle(name, cfg, it, tr, flat, calls, out, pre, goal_fn, key, what, timeout=120, abstract=False):
+    """goal_fn(out_like) -> z3 Bool (may mention input symbols and the oracle calls' terms)."""
+    from vlib import smt
+    from vlib.common import Ob
+
+    ph = placeholders(out)
+    g_ph = goal_fn(ph)
+    goal = z3.substitute(g_ph, *_subs_pairs(it.alg, ph, out))
+    if abstract:
+        fa = smt.abstract_apps(list(pre) + [goal])
+        v, m, s = smt.check(fa[:-1], fa[-1], timeout)
+    else:
+        v, m, s = smt.check(list(pre), goal, timeout)
+    o = Ob(name, v, s, cfg, key=key, what=what)
+    if v == "sat":
+        o.replayed = oracle_replay(it, tr, flat, calls, pre, goal, g_ph, ph)
+    return o
